@@ -93,23 +93,23 @@ def run(ctx, eng):
            '[] + PingAckReceived', node=fi.node)
     # the returned frames are appended in arrival order by _receive_frame
     f2 = m.func(H + '_receive_frame')
-    ok = False
+    ok = cm.Every()
     for p in cm.normal_paths(eng.I.run(f2)):
         if any(e.kind == 'catch' for e in p.events):
             continue
         ps = cm.calls_to(p, '_prepare_for_sending')
-        ok = len(ps) == 1 and ps[0].args[0][0] == 'sub' and \
-            ps[0].args[0][2] == T.C(0) and ps[0].args[0][1][0] == 'call'
+        ok(len(ps) == 1 and ps[0].args[0][0] == 'sub' and
+           ps[0].args[0][2] == T.C(0) and ps[0].args[0][1][0] == 'call')
     ctx.ob('FLOW.ping', f2.qual, 'handler frames appended as returned', ok,
            '_prepare_for_sending(frames) with the list the handler returned',
            node=f2.node)
     f3 = m.func(H + '_prepare_for_sending')
-    ok = False
+    ok = cm.Every()
     for p in cm.normal_paths(eng.I.run(f3)):
         ws = [e for e in p.events if e.kind == 'write' and
               e.attr == '_data_to_send']
         if ws:
-            ok = len(ws) == 1 and ws[0].aug == '+'
+            ok(len(ws) == 1 and ws[0].aug == '+')
     ctx.ob('FLOW.append', f3.qual, 'output buffer is appended to', ok,
            'self._data_to_send += serialised frames (append only, in list '
            'order)', node=f3.node)
